@@ -17,6 +17,7 @@ func init() {
 			"D4 batch quantiles store the single-query result for the same element. "+
 			"D5 the iteration contract of every store the sketch iterates through (the C04-D3 obligations re-evaluated: each bin reported once with its weight, the callback's stop verdict honoured immediately, channels closed). "+
 			"D6 coherence across Copy — the exact variant's Copy returns {inner.Copy(), statistics.Copy()} (a shared statistics object would let a later operation on either sketch change the other's count, extremes and sum). "+
+			"SHARED (obligations of other properties that decide clauses this property states too, re-evaluated here under their home rule ids): C06-D3 sketch-state writes (decoders only accumulate, so the count stays the absorbed weight when decoding into a non-empty sketch). "+
 			"NOT DECIDED: 'within alpha of the true extremes', monotonicity in q, accuracy of the approximate sum (numeric).",
 		"one obligation per path of the extreme/emptiness tables, per iteration clause; non-trivial = a path evaluation was needed",
 		true, runC12)
@@ -38,6 +39,9 @@ func runC12(c *Ctx) {
 	}
 	// coherence after Copy: the exact variant's copy carries its own copy of the statistics
 	c10Wrappers(c, a, "C12-D6", "Copy")
+	// coherence across decoding: the decoders only accumulate into the sketch's state (an assignment would make the
+	// count disagree with the absorbed weight when decoding into a non-empty sketch)
+	c.shared(func() { c06Additive(c, a) }, keyMentions("/write/", "block-local"))
 }
 
 type emptiness struct {
